@@ -1,6 +1,7 @@
 (* C03 - faithful model of command discovery and of the wrapper list of commands.ts.
-   ast_cache.rs parse_and_cache_all_files (walk, acceptance test on the FULL path string,
-   read_to_string with the question-mark operator, parse errors skipped), analysis/mod.rs
+   ast_cache.rs parse_and_cache_all_files (walk; acceptance test on the directory COMPONENTS
+   of the path below the project path; a file that cannot be read or parsed is reported and
+   skipped), analysis/mod.rs
    analyze_project_with_verbose (per-file loop over the hash map, any order),
    command_parser.rs extract_commands_from_ast / is_tauri_command (top-level Item::Fn only),
    partials/command_function.ts.tera (one exported async function per CommandInfo).
@@ -48,10 +49,6 @@ Definition norm_root (root : str) : str := if ends_with slash root then removela
 Definition flat (comps : list str) : str := flat_map (fun c => slash :: c) comps.
 Definition path_string (root : str) (comps : list str) : str := norm_root root ++ flat comps.
 
-(* str::contains *)
-Fixpoint contains (p s : str) : bool :=
-  starts p s || match s with [] => false | _ :: s' => contains p s' end.
-
 (* Path::extension of the last component: text after the last dot, provided something
    stands before that dot *)
 Fixpoint ext_rev (acc : str) (r : str) : option str :=     (* r = reversed file name *)
@@ -63,24 +60,27 @@ Definition extension (name : str) : option str := ext_rev [] (rev name).
 Definition is_rs (name : str) : bool :=
   match extension name with Some e => str_eqb e (L "rs") | None => false end.
 
+(* path.strip_prefix(project_path): every walked path is project_path joined with the
+   components below it, and strip_prefix compares components, so it gives those back for
+   every spelling of the root *)
+Definition below_root (root : str) (comps : list str) : list str := comps.
+(* Component::Normal(name) with name == target or name == .git *)
+Definition excluded_component (d : str) : bool := str_eqb d (L "target") || str_eqb d (L ".git").
+(* below_root.parent() drops the file name; any excluded directory component rejects the file *)
 Definition accepted (root : str) (comps : list str) : bool :=
-  let p := path_string root comps in
-  is_rs (last comps []) && negb (contains (L "/target/") p) && negb (contains (L "/.git/") p).
+  is_rs (last comps []) && negb (existsb excluded_component (removelast (below_root root comps))).
 
-(* ---- parse_and_cache_all_files ---- *)
-Inductive outcome (A : Type) := Done (a : A) | Failed.
-Arguments Done {A} a.
-Arguments Failed {A}.
-
-Fixpoint load (root : str) (files : list (list str * content)) : outcome (list (list str * list ritem)) :=
+(* ---- parse_and_cache_all_files: the Err arms of read_to_string and of syn::parse_file both
+   print to stderr and continue; inside the model the function has no failing outcome ---- *)
+Fixpoint load (root : str) (files : list (list str * content)) : list (list str * list ritem) :=
   match files with
-  | [] => Done []
+  | [] => []
   | (p, c) :: r =>
       if accepted root p then
         match c with
-        | NotUtf8 => Failed                        (* read_to_string(path)? leaves the whole analysis *)
-        | Unparsable => load root r                (* eprintln, continue *)
-        | Parsed items => match load root r with Done l => Done ((p, items) :: l) | Failed => Failed end
+        | NotUtf8 => load root r                   (* Failed to read ..., continue *)
+        | Unparsable => load root r                (* Failed to parse ..., continue *)
+        | Parsed items => (p, items) :: load root r
         end
       else load root r
   end.
@@ -94,8 +94,7 @@ Definition analyze_files (cached : list (list str * list ritem)) : list cmd :=
   flat_map (fun pi => map (fun f => {| c_file := fst pi; c_fn := f |}) (file_cmds (snd pi))) cached.
 
 (* the run with the hash map iterated in walk order *)
-Definition analyze (root : str) (l : layout) : outcome (list cmd) :=
-  match cache root l with Done c => Done (analyze_files c) | Failed => Failed end.
+Definition analyze (root : str) (l : layout) : list cmd := analyze_files (cache root l).
 
 (* ---- commands.ts: one AsyncFn per CommandInfo, both modes ---- *)
 Record wrapper := { w_invoke : str; w_ret : str }.
